@@ -80,7 +80,7 @@ static int in_shim;
 
 static int cred_set; static long cred_uid = -1, cred_gid = -1; static char cred_groups[128] = "";
 
-static const char *classes[] = {"open","read","write","fsync","link","unlink","stat","utimes","close","ftruncate","rename","flock","mkdir","opendir","lseek","fork","pipe","exec","pwrite","fstat","chdir","readdir","setuid","setgid","setgroups","socket","waitpid",0};
+static const char *classes[] = {"open","read","write","fsync","link","unlink","stat","utimes","close","ftruncate","rename","flock","mkdir","opendir","lseek","fork","pipe","exec","pwrite","fstat","chdir","readdir","setuid","setgid","setgroups","socket","waitpid","malloc",0};
 static int classidx(const char *c) { int i; for (i = 0; classes[i]; ++i) if (!strcmp(classes[i], c)) return i; return 31; }
 
 static int keymatch(const char *spec)
@@ -904,6 +904,22 @@ int res_search(const char *name, int class, int type, unsigned char *ans, int an
   REAL(res_search); init();
   if (!getenv("VSHIM_DNS")) return real_res_search(name, class, type, ans, anslen);
   return fake_dns(name, type, ans, anslen);
+}
+
+/* ------------------------------------------------------------------ memory: the k-th malloc() of a program fails (class "malloc") */
+extern void *__libc_malloc(size_t);
+void *malloc(size_t n)
+{
+  int f;
+  if (in_shim || !inited || fault_k < 0 || strcmp(fault_class, "malloc")) {
+    if (!in_shim && inited && tracefd >= 0 && getenv("VSHIM_MALLOC_TRACE")) { in_shim++; tr("malloc\t%zu", n); in_shim--; }
+    return __libc_malloc(n);
+  }
+  in_shim++;
+  f = maybe_fault("malloc");
+  if (f == 1) { tr("malloc\t%zu\t0\t12\tFAULT", n); in_shim--; errno = ENOMEM; return 0; }
+  in_shim--;
+  return __libc_malloc(n);
 }
 
 int socket(int d, int t, int p)
